@@ -45,5 +45,8 @@ where
     P: AsRef<Path>,
 {
     let mut writer = File::create(dst).map(Writer::new)?;
-    writer.write_index(index)
+    writer.write_index(index)?;
+    // Finish explicitly, as errors are discarded when the gzip encoder is dropped.
+    writer.finish()?;
+    Ok(())
 }
